@@ -169,63 +169,7 @@ def list_blocks(x):
     return out
 
 
-# ---- containers --------------------------------------------------------------------------------------------------
-
-def parts(v, depth=0):
-    """{name: Tensor} of the tensors reachable from a live object (a Tensor is its own single part)."""
-    if isinstance(v, yastn.Tensor):
-        return {"": v}
-    out = {}
-    if depth > 3:
-        return out
-    if isinstance(v, mps.MpsMpoOBC):
-        for k, t in v.A.items():
-            for kk, tt in parts(t, depth + 1).items():
-                out["A%r%s" % (k, kk)] = tt
-    elif isinstance(v, fpeps.DoublePepsTensor):
-        out["bra"], out["ket"] = v.bra, v.ket
-        if v.op is not None:
-            out["op"] = v.op
-    elif isinstance(v, fpeps.Lattice):          # Peps and lattice containers
-        for site in v.sites():
-            x = v[site]
-            if x is not None:
-                for kk, tt in parts(x, depth + 1).items():
-                    out["%r%s" % (tuple(site), kk)] = tt
-    elif isinstance(v, fpeps.EnvBoundaryMPS):
-        for k, m in v._env.items():
-            for kk, tt in parts(m, depth + 1).items():
-                out["env%r%s" % (k, kk)] = tt
-        for kk, tt in parts(v.psi, depth + 1).items():
-            out["psi" + kk] = tt
-    elif isinstance(v, (fpeps.EnvCTM, fpeps.EnvBP)):
-        for site in v.sites():
-            loc = v[site]
-            for f in loc.fields():
-                t = getattr(loc, f)
-                if isinstance(t, yastn.Tensor):
-                    out["env%r.%s" % (tuple(site), f)] = t
-        psi = v.psi.ket if hasattr(v.psi, "ket") else v.psi
-        for kk, tt in parts(psi, depth + 1).items():
-            out["psi" + kk] = tt
-    elif hasattr(v, "fields") and callable(v.fields):       # environment dataclasses
-        for f in v.fields():
-            t = getattr(v, f)
-            if isinstance(t, yastn.Tensor):
-                out["." + f] = t
-    return out
-
-
-def meta_of(v):
-    if isinstance(v, mps.MpsMpoOBC):
-        return ["MpsMpoOBC", v.N, v.nr_phys, v.pC, complex(v.factor), sorted(repr(k) for k in v.A)]
-    if isinstance(v, fpeps.DoublePepsTensor):
-        return ["DoublePepsTensor", list(v.trans), sorted((k, list(c)) for k, c in v.swaps.items()), v.op is not None]
-    if isinstance(v, fpeps.Lattice):
-        return [type(v).__name__, list(v.dims), str(v.boundary)]
-    if isinstance(v, (fpeps.EnvBoundaryMPS, fpeps.EnvCTM, fpeps.EnvBP)):
-        return [type(v).__name__, list(v.dims)]
-    return None
+from sim.containers import parts, meta_of  # noqa: E402
 
 
 # ---- snapshots -------------------------------------------------------------------------------------------------
